@@ -355,7 +355,7 @@ impl<'tcx> Cx<'tcx> {
 
     fn body(&self, did: rustc_hir::def_id::DefId) -> String {
         let tcx = self.tcx;
-        let body = tcx.optimized_mir(did);
+        let body = if matches!(tcx.def_kind(did), DefKind::Const { .. }) { tcx.mir_for_ctfe(did) } else { tcx.optimized_mir(did) };
         let mut s = String::new();
         let _ = write!(s, "{{\"path\":{},\"kind\":\"{:?}\"", esc(&tcx.def_path_str(did)), tcx.def_kind(did));
         let _ = write!(s, ",\"span\":{}", self.span(tcx.def_span(did)));
@@ -498,6 +498,14 @@ impl rustc_driver::Callbacks for Cb {
             }
             bodies.push(cx.body(did));
         }
+        // initialisers of the crate's named constants (`pub const X: T = ..`), as bodies of their own
+        let mut const_bodies = Vec::new();
+        for ldid in tcx.hir_body_owners() {
+            let did = ldid.to_def_id();
+            if matches!(tcx.def_kind(did), DefKind::Const { .. }) && tcx.opt_item_name(did).is_some() {
+                const_bodies.push(cx.body(did));
+            }
+        }
         // ADT table (local structs / enums): variants, field names and types
         let mut adts = Vec::new();
         for ldid in tcx.hir_crate_items(()).definitions() {
@@ -557,11 +565,12 @@ impl rustc_driver::Callbacks for Cb {
             .map(|w| esc(&w[1]))
             .collect();
         let doc = format!(
-            "{{\"crate\":\"rs_opw_kinematics\",\"nonce\":{},\"features\":[{}],\"adts\":[\n{}\n],\"impls\":[\n{}\n],\"bodies\":[\n{}\n]}}\n",
+            "{{\"crate\":\"rs_opw_kinematics\",\"nonce\":{},\"features\":[{}],\"adts\":[\n{}\n],\"impls\":[\n{}\n],\"consts\":[\n{}\n],\"bodies\":[\n{}\n]}}\n",
             esc(&std::env::var("OPWFACTS_NONCE").unwrap_or_default()),
             features.join(","),
             adts.join(",\n"),
             impls.join(",\n"),
+            const_bodies.join(",\n"),
             bodies.join(",\n")
         );
         std::fs::write(&out, doc).expect("write facts");
